@@ -33,6 +33,10 @@ type c13Case struct {
 	PerRcpt  bool        `json:"per_rcpt"` // backend implements LMTPSession
 	Early    bool        `json:"early"`    // delivery returns without reading the message
 	Pipeline bool        `json:"pipeline"` // message and marker in the same segment as the command
+	// Prior: before the judged transaction, a chunked transaction with the same
+	// recipients is abandoned ("rset": RSET after a chunk; "lhlo": new LHLO),
+	// its backend having set statuses for some recipients already.
+	Prior string `json:"prior,omitempty"`
 }
 
 func c13Accepted(c c13Case) []string {
@@ -139,6 +143,23 @@ func c13Run(c c13Case) Verdict {
 	plan.PanicBefore = c.Panic == "before"
 	plan.PanicAfter = c.Panic == "after"
 	script.Data = []harness.DataPlan{plan}
+	if c.Prior != "" {
+		// the abandoned transfer: same RCPT decisions again, a delivery that
+		// sets a distinctive status for every accepted recipient and then
+		// waits for octets that never come
+		script.Rcpt = append(append([]harness.Decision(nil), script.Rcpt...), script.Rcpt...)
+		prior := harness.DataPlan{Read: harness.ReadPlan{Limit: -1}}
+		if c.PerRcpt {
+			seenPrior := map[string]bool{}
+			for _, a := range acc {
+				if !seenPrior[a] {
+					seenPrior[a] = true
+					prior.Status = append(prior.Status, harness.StatusCall{Rcpt: a, D: harness.Decision{Kind: "smtp", Code: 599, Enh: [3]int{5, 9, 9}, Msg: "status-of-the-abandoned-transfer"}})
+				}
+			}
+		}
+		script.Data = []harness.DataPlan{prior, plan}
+	}
 	r := harness.NewRig(harness.Config{LMTP: true}, script)
 	w, _ := r.Dial()
 	if st := w.WaitQuiet(); st != harness.QIdle {
@@ -148,6 +169,22 @@ func c13Run(c c13Case) Verdict {
 	w.Recv()
 	var pre conv
 	pre.cmd("LHLO cli", expect{Code: 250})
+	if c.Prior != "" {
+		pre.cmd("MAIL FROM:<prior@x>", expect{Code: 250})
+		for _, rc := range c.Rcpts {
+			if rc.Reject {
+				pre.cmd("RCPT TO:<"+rc.Addr+">", expect{Code: 550})
+			} else {
+				pre.cmd("RCPT TO:<"+rc.Addr+">", expect{Code: 250})
+			}
+		}
+		pre.raw([]byte("BDAT 3\r\nabc"), expect{Code: 250})
+		if c.Prior == "rset" {
+			pre.cmd("RSET", expect{Code: 250})
+		} else {
+			pre.cmd("LHLO again", expect{Code: 250})
+		}
+	}
 	pre.cmd("MAIL FROM:<s@x>", expect{Code: 250})
 	for _, rc := range c.Rcpts {
 		if rc.Reject {
@@ -263,6 +300,9 @@ func c13Run(c c13Case) Verdict {
 	if !c.PerRcpt {
 		v.Classes = append(v.Classes, "plain_backend")
 	}
+	if c.Prior != "" {
+		v.Classes = append(v.Classes, "after_abandoned_transfer")
+	}
 	n := len(acc)
 	if c.Panic != "" {
 		// A panicking backend: the statement only demands that nothing hangs
@@ -364,6 +404,7 @@ func c13Gen(t *rapid.T) c13Case {
 		}
 	}
 	c.Pipeline = rapid.Bool().Draw(t, "pipeline")
+	c.Prior = rapid.SampledFrom([]string{"", "", "", "rset", "lhlo"}).Draw(t, "prior")
 	return c
 }
 
